@@ -143,12 +143,12 @@ def field_wire(f):
 
 
 def wks_bitmap(ports):
-    """One bit per port, bit order as in src/rr/rdata/std13.rs (port 8k+b is bit 2^b of octet k)."""
+    """One bit per port, numbered from the most significant bit of each octet (RFC 1035 3.4.2 / 2.3.2), as rfc_order of the Coq spec."""
     if not ports:
         return b""
     bm = bytearray(max(ports) // 8 + 1)
     for p in ports:
-        bm[p // 8] |= 1 << (p % 8)
+        bm[p // 8] |= 0x80 >> (p % 8)
     return bytes(bm)
 
 
